@@ -1031,7 +1031,12 @@ class FuncChr(ValueFunc):
     def execute(self, args, environment, pos):
         if args.isNull("n"):
             return NULL
-        return ValueString(chr(args.getInt("n").value))
+        n = args.getInt("n").value
+        if n < 0 or n > 0x10FFFF:
+            raise CklRuntimeError(
+                ValueString("ERROR"), f"No character has the code {n}", pos
+            )
+        return ValueString(chr(n))
 
 
 class FuncClose(ValueFunc):
